@@ -1138,6 +1138,7 @@ func runC14(c *Ctx) {
 	gen("bytes", c.N(700, 16000), c14GenBytes)
 	gen("special", c.N(600, 12000), c14GenSpecial)
 	gen("flags", c.N(500, 8000), c14GenFlags)
+	gen("flagmix", c.N(700, 12000), c14GenFlagMix) // the report flags in pairs and triples (c14flags.go)
 	gen("slow", c.N(3, 12), c14GenKnownSlow)
 	if c.Replay && c.OnlyStr == "directed" {
 		// a finding of the directed search carries its own input (the absolute paths in it name the scratch
